@@ -46,7 +46,7 @@ def replay(function, clause, model):
 def run_bounded(tier, seed):
     n, f, inp = bounded(tier, seed)
     return {'tool': 'differential comparison with a reference DBus codec written from the specification (contracts/wire_ref.py): encoder bytes, decoder on specification bytes, round trip, byte counts',
-            'bound': 'every (type code, offset < 64) pair for alignment; 23 hand-picked container cases (incl. 32-level nesting, a 255-byte signature, NaN) x 8 offsets x 2 byte orders; variants of one Python type with different content types in sequence; %d random (signature, value, offset, byte order) cases over all single complete types up to length %d' % (12000 if tier == 'thorough' else 3000, 6 if tier == 'thorough' else 5),
+            'bound': 'every (type code, offset < 64) pair for alignment; 23 hand-picked container cases (incl. 32-level nesting, a 255-byte signature, NaN) x 8 offsets x 2 byte orders; variants of one Python type with different content types in sequence; %d random (signature, value, offset, byte order) cases over all single complete types up to length %d' % (80000 if tier == 'thorough' else 3000, 6 if tier == 'thorough' else 5),
             'evaluations': n, 'failures': [] if not f else [{'function': 'txdbus.marshal', 'clause': 'wire-format', 'input': inp, 'detail': f}]}
 
 
